@@ -2,11 +2,11 @@
 package clih
 
 import (
-	pclient "github.com/cloudwego/hertz/pkg/protocol/client"
 	"context"
 	"crypto/tls"
 	"errors"
 	"fmt"
+	pclient "github.com/cloudwego/hertz/pkg/protocol/client"
 	"io"
 	"net"
 	"regexp"
@@ -66,8 +66,10 @@ func (d *Dialer) AddTLS(conn network.Conn, tlsConfig *tls.Config) (network.Conn,
 }
 
 type Client struct {
-	D  *Dialer
-	HC *http1.HostClient
+	// SkipBodyOnce: the next Do sets Response.SkipBody before the exchange
+	SkipBodyOnce bool
+	D            *Dialer
+	HC           *http1.HostClient
 	// Tainted: a panic went through the host client; its bookkeeping (connection count, unclosed body
 	// stream) is unknown, so the client is not reused for another execution.
 	Tainted bool
@@ -125,6 +127,11 @@ func sortHeaders(h []httpref.Header) {
 // Do performs one exchange and observes the response completely (stream bodies are read to the end and closed).
 func (c *Client) Do(req *protocol.Request) (o RespObs) {
 	resp := protocol.AcquireResponse()
+	if c.SkipBodyOnce {
+		// the caller declares that it does not want the body of this exchange (Response.SkipBody)
+		resp.SkipBody = true
+		c.SkipBodyOnce = false
+	}
 	defer func() {
 		if r := recover(); r != nil {
 			o.Panic = fmt.Sprint(r)
